@@ -1,4 +1,5 @@
 import MageModel.Fn.Main
+import MageModel.Fn.JsonInj
 /-!
 # C14 — mg.F accepts exactly well-typed argument lists and calls faithfully
 All signatures (any parameter and result types, namespace receiver, context, variadic tail) × all argument lists
@@ -402,6 +403,26 @@ theorem not_well_typed : ¬ WellTyped sigFloats [] := by
     | cons a b => simp [stripPrefix] at hr
   rw [this.2] at hes; cases hes
 end Pinned
+
+/-! ### identity: two mg.F values denote the same dependency iff same function and equal argument values -/
+
+/-- the registry key of an `mg.F` value: the function's runtime name and `json.Marshal(args)` -/
+def fKey (name : String) (args : List Json.Arg) : String × List Char := (name, Json.encList args)
+
+/-- **Same key ⇔ same function and equal arguments**, for argument lists accepted by one function (whose parameter
+kinds are fixed by its signature: `checkF` demands exactly matching types) and strings that are valid UTF-8. -/
+theorem same_dependency_iff (name name' : String) (a b : List Json.Arg)
+    (hshape : name = name' → a.map Json.Arg.kind = b.map Json.Arg.kind) :
+    fKey name a = fKey name' b ↔ (name = name' ∧ a = b) := by
+  constructor
+  · intro h
+    have h1 : name = name' := congrArg Prod.fst h
+    have h2 : Json.encList a = Json.encList b := congrArg Prod.snd h
+    exact ⟨h1, Json.encList_inj a b (hshape h1) h2⟩
+  · rintro ⟨rfl, rfl⟩; rfl
+
+/-- strings that contain the separators of the encoding are not confused: `["a\",\"b","c"]` vs `["a","b\",\"c"]` -/
+example : fKey "f" [.str "a\",\"b".toList, .str "c".toList] ≠ fKey "f" [.str "a".toList, .str "b\",\"c".toList] := by decide
 
 /-! ### non-vacuity -/
 example : (⟨[Ty.ns, Ty.ctx, Ty.int, Ty.slice Ty.str], true, [Ty.err]⟩ : Sig).WF :=
